@@ -3,21 +3,14 @@ package main
 import (
 	"fmt"
 	"os"
-	"runtime/pprof"
-	"strconv"
-	"strings"
-	"time"
 
 	"github.com/tsawler/tabula"
+	"verifharness/gen/pdfw"
 )
 
 func main() {
-	n, _ := strconv.Atoi(os.Args[1])
-	s := "<html><body><p>x</p>" + strings.Repeat("<"+os.Args[2]+">", n) + "hello" + "</body></html>"
-	f, _ := os.Create("/tmp/cpu.prof")
-	pprof.StartCPUProfile(f)
-	t := time.Now()
-	_, _, err := tabula.FromHTMLString(s).Chunks()
-	fmt.Println("Chunks", n, time.Since(t), err)
-	pprof.StopCPUProfile()
+	b := pdfw.SimplePDF([]pdfw.SimplePage{{W: 612, H: 792, Items: []pdfw.SimpleItem{{X: 72, Y: 700, Size: 12, Text: "Hello (world) one two three"}, {X: 72, Y: 680, Size: 12, Text: "second line of text here", Bold: true}}}, {W: 612, H: 792, Items: []pdfw.SimpleItem{{X: 72, Y: 700, Size: 12, Text: "page two"}}}})
+	os.WriteFile("/tmp/simple.pdf", b, 0o644)
+	t, _, err := tabula.Open("/tmp/simple.pdf").Text()
+	fmt.Printf("%q %v\n", t, err)
 }
